@@ -134,6 +134,78 @@ def numeric_text(enc, hexbm):
     return h
 
 
+def reconfigured(enc, hexbm):
+    """one configuration object used for a message with a PDSxxxx entry, edited in place so that another element carries the PDS data, and
+    used again: both encodings follow the configuration as it is at the time of the call"""
+    import copy
+    from .c01 import RECONF_A, RECONF_B
+
+    def h():
+        core.FUEL.set(40)
+        iso = M().iso8583
+        cfg = copy.deepcopy(RECONF_A)
+        wits = []
+
+        def rp():
+            return {'kind': 'reconfig_encode', 'args': {'msgs': [w(ev) for w in wits], 'cfgs': [RECONF_A, RECONF_B][:len(wits)], 'enc': enc, 'hexbm': hexbm}}
+        core.set_fallback(rp, 'C02/concretised')
+        for phase, (conf, carrier) in enumerate(((RECONF_A, 48), (RECONF_B, 62))):
+            if phase:
+                cfg.clear()
+                cfg.update(copy.deepcopy(conf))
+            e2 = Elem(2, cfg['2'], tag='_p%d' % phase, maxvar=40)
+            ec = Elem(carrier, cfg[str(carrier)], tag='_p%d' % phase, maxvar=120)       # the carrier as the reference expects it on the wire
+            pkey, pval = list(ec.pds.items())[0]
+            msg = {'MTI': '1240', 'DE2': e2.value, pkey: pval}
+            wits.append(lambda ev, e2=e2, pkey=pkey, pval=pval: {'MTI': '1240', 'DE2': e2.witness(ev), pkey: concretize(pval, ev) if isinstance(pval, Rope) else pval})
+            with guard('dumps', 'C02/refused', rp):
+                b = iso.dumps(dict(msg), encoding=enc, hex_bitmap=hexbm, iso_config=cfg)
+            E = reference_bytes('1240', [e2, ec], enc, hexbm)
+            req_eq(b, E, 'use %d of the configuration object: encoded bytes differ from the documented layout (PDS data belongs in DE%d)' % (phase + 1, carrier),
+                   key='C02/layout', replay=rp)
+        return {'sample': {'enc': enc}, 'replay': rp()}
+    return h
+
+
+UNENCODABLE = {'latin_1': ['SHOP \u20ac1', 'BAR \u0141\xd3D\u0179', '\u20ac'], 'cp500': ['SHOP \u20ac1', 'PRICE \u0141'], 'cp037': ['A\u20acB'],
+               'ascii': ['CAF\xc9', 'SHOP \u20ac1']}
+
+
+def unencodable_text(enc):
+    """a text value with a character the chosen code page lacks cannot be represented: whenever dumps returns, the bytes have to be the
+    documented layout - so it has to refuse (which it does with UnicodeEncodeError), never emit a field whose byte count disagrees with
+    its width or its length prefix"""
+    def h():
+        from . import ref
+        iso = M().iso8583
+        cfgs = bit_config()
+        b = choose('bit', [42, 43, 72, 2, 3])
+        v = choose('text', UNENCODABLE[enc])
+        other = choose('other', [None, 63])
+        w = cfgs[str(b)].get('field_length') or 0
+        if cfgs[str(b)]['field_type'] == 'FIXED':
+            v = v.ljust(w)[:w] if len(v) <= w else v[:w]
+        msg = {'MTI': '1240', 'DE%d' % b: v}
+        if other:
+            msg['DE%d' % other] = 'TRAILING ELEMENT'
+        rp = {'kind': 'unencodable', 'args': {'msg': msg, 'enc': enc}}
+        core.set_fallback(rp, 'C02/concretised')
+        try:
+            got = iso.dumps(dict(msg), encoding=enc)
+        except core.ControlFlow:
+            raise
+        except Exception:
+            return {'sample': {'bit': b, 'text': v, 'refused': True}, 'replay': rp}
+        try:
+            d, _ = ref.ref_decode(got, cfgs, enc, False)
+        except ref.RefError as e:
+            fail('a value that cannot be encoded was emitted as a malformed message: %s' % e, key='C02/unencodable', replay=rp)
+        require(d.get('DE%d' % b) == (v if cfgs[str(b)]['field_type'] != 'FIXED' else v) and (not other or d.get('DE%d' % other) == 'TRAILING ELEMENT'),
+                'a value that cannot be encoded was emitted and reads back differently', key='C02/unencodable', replay=rp)
+        return {'sample': {'bit': b, 'text': v, 'refused': False}, 'replay': rp}
+    return h
+
+
 DE43_FAMILY = [
     'ACME STORE\\12 HIGH ST\\MELBOURNE\\3103      VICAUS',
     'ACME STORE  \\12 HIGH ST   \\MELBOURNE   \\      3103VICAUS',
@@ -196,6 +268,13 @@ def obligations(tier):
     for enc in (('latin_1', 'cp500') if q else CODECS):
         obs.append(Ob('dec/de43-family/%s' % enc, de43_plumbing(enc), 120,
                       'DE43 from a concrete family of merchant strings (blank-padded, right-aligned, all-blank postcode, no match), alone or next to another element', _funcs))
+    for enc in (('latin_1', 'cp500') if q else ('latin_1', 'cp500', 'cp037', 'ascii')):
+        obs.append(Ob('unencodable-text/%s' % enc, unencodable_text(enc), 120,
+                      'text values with a character the code page lacks (concrete family), alone and followed by another element: refused, or emitted '
+                      'in the documented layout', _funcs))
+    for enc, hexbm in ((('cp500', False),) if q else (('cp500', False), ('latin_1', True))):
+        obs.append(Ob('reconfigured/%s/%s' % (enc, 'hex' if hexbm else 'bin'), reconfigured(enc, hexbm), 300,
+                      'a caller-supplied configuration object edited in place between two uses (the PDS carrier moves from DE48 to DE62)', _funcs))
     for enc, hexbm in ((('latin_1', False), ('cp500', True)) if q else [(e, hb) for e in CODECS for hb in (False, True)]):
         obs.append(Ob('numeric-text/%s/%s' % (enc, 'hex' if hexbm else 'bin'), numeric_text(enc, hexbm), 300,
                       'every numeric element (packaged and a custom configuration with FIXED and LLVAR numbers) x a family of digit strings '
